@@ -2,6 +2,7 @@ package props
 
 import (
 	"fmt"
+	"go/constant"
 	"go/token"
 	"go/types"
 	"strings"
@@ -199,6 +200,62 @@ func runC12(c *eng.Ctx) {
 			})
 		}
 		c.Check(n >= 2, "auto-interval-from-range", nil, f, "the automatic interval is computed from the range's Start and End", fmt.Sprintf("%d reads", n))
+	})
+
+	// ---- 2d. "this node does not know the metric" is said in the words the root tolerates ---------------------------------------
+	c.Rule("SYMMETRY", "index.metricMetaDatabase.GetMetricID{absence answers 'not found'}", func() {
+		ce := c.Fn(mcT + ".checkError")
+		tolerated := ""
+		for _, b := range eng.BlocksT(ce) {
+			for _, in := range b.Instrs {
+				if cl, ok := in.(*ssa.Call); ok && strings.Join(p.CalleeKeys(cl), "") == "strings.Contains" {
+					if k, ok := cl.Common().Args[1].(*ssa.Const); ok && k.Value != nil {
+						tolerated = constant.StringVal(k.Value)
+					}
+				}
+			}
+		}
+		if tolerated == "" {
+			c.Undecided("checkError does not test the error message with strings.Contains(msg, <literal>)")
+		}
+		f := c.Fn("index.metricMetaDatabase.GetMetricID")
+		n := 0
+		for _, b := range f.Blocks {
+			r, ok := b.Instrs[len(b.Instrs)-1].(*ssa.Return)
+			if !ok || b == f.Recover || len(r.Results) == 0 {
+				continue
+			}
+			ev := r.Results[len(r.Results)-1]
+			if eng.IsNilConst(ev) {
+				continue
+			}
+			// errors made here (not handed up from a callee): they wrap a package-level sentinel
+			var texts []string
+			eng.WalkExpr(ev, func(x ssa.Value) bool {
+				if u, ok := x.(*ssa.UnOp); ok {
+					if g, ok := u.X.(*ssa.Global); ok {
+						if t := sentinelText(p, g); t != "" {
+							texts = append(texts, t)
+						}
+					}
+				}
+				return true
+			})
+			if len(texts) == 0 {
+				continue
+			}
+			n++
+			okT := true
+			for _, t := range texts {
+				if !strings.Contains(t, tolerated) {
+					okT = false
+				}
+			}
+			c.Check(okT, fmt.Sprintf("absence-is-tolerated-text[%d]", n), r, f,
+				"when this node has no entry for the queried namespace / metric the lookup answers with an error whose text contains \""+tolerated+"\" — the only text the root's checkError tolerates from a node that simply holds no matching data",
+				"answers with "+strings.Join(texts, " / "))
+		}
+		c.Check(n >= 2, "absence-exits-found", nil, f, "GetMetricID has its 'namespace unknown' and 'metric unknown' exits", fmt.Sprintf("%d", n))
 	})
 
 	// ---- 3. completion --------------------------------------------------------------------------------------------------------------
@@ -450,4 +507,34 @@ func shardNodesIgnoreNotFound(c *eng.Ctx) {
 	}
 	c.Check(ign >= 4, "ignoring-nodes-exist", nil, nil, "the per-shard stages create their lookup nodes with NewPlanNodeWithIgnore", fmt.Sprintf("%d ignoring, %d plain", ign, plain))
 	c.Observe(fmt.Sprintf("per-shard plan nodes: %d ignoring, %d plain", ign, plain))
+}
+
+// sentinelText returns the message of a package-level error variable initialised with errors.New("...") / fmt.Errorf("...").
+func sentinelText(p *eng.Prog, g *ssa.Global) string {
+	init := g.Pkg.Func("init")
+	if init == nil {
+		return ""
+	}
+	for _, b := range init.Blocks {
+		for _, in := range b.Instrs {
+			st, ok := in.(*ssa.Store)
+			if !ok || st.Addr != ssa.Value(g) {
+				continue
+			}
+			txt := ""
+			eng.WalkExpr(st.Val, func(x ssa.Value) bool {
+				if k, ok := x.(*ssa.Const); ok && k.Value != nil && k.Value.Kind() == constant.String {
+					txt += constant.StringVal(k.Value) + " "
+				}
+				if u, ok := x.(*ssa.UnOp); ok {
+					if g2, ok := u.X.(*ssa.Global); ok && g2 != g {
+						txt += sentinelText(p, g2) + " " // a sentinel wrapping another one (%w)
+					}
+				}
+				return true
+			})
+			return strings.TrimSpace(txt)
+		}
+	}
+	return ""
 }
